@@ -1,6 +1,9 @@
 import MidoModel.Tables
 import MidoModel.Meta
 import MidoModel.Smf
+import MidoModel.MsgObj
+import MidoModel.Tempo
+import MidoModel.CharsetScope
 /-!
   Table tie: the tables extracted from the working tree on this run equal the model's.
   If the source tables change, one of these stops checking.
@@ -35,4 +38,18 @@ theorem tie_realtime_model : [S1.clock, .start, .continue_, .stop, .active_sensi
   refine ⟨by decide, ?_⟩
   intro k; cases k <;> decide
 theorem tie_max_len : Generated.maxMessageLength = maxMessageLength := by decide
+end Mido
+
+namespace Mido
+/-! defaults -/
+def intsOf (vs : List PyVal) : List Int := vs.filterMap (fun v => match v with | .int n => some n | _ => none)
+
+/-- `DEFAULT_VALUES` of the message specs: the model's `defaultOf` on every integer attribute -/
+theorem tie_int_defaults :
+    Generated.intDefaults.all (fun p => p.1 == "time" || defaultOf p.1 == .int p.2) = true := by decide +kernel
+/-- the integer defaults of every meta message type -/
+theorem tie_meta_defaults : Generated.metaIntDefaults =
+    MetaType.all.map (fun t => (t.typeByte, intsOf t.defaults)) := by decide +kernel
+theorem tie_default_tempo : Generated.defaultTempo = defaultTempo := by decide
+theorem tie_default_charset : Generated.defaultCharset = "latin1" ∧ ({} : GState).charset = Charset.latin1 := by decide
 end Mido
